@@ -34,7 +34,11 @@ ASSUMPTIONS = ["subscription identity = (service, instance, major version, event
 FLOORS = {"quick": {"histories": 25000, "exhaustive_core_histories": 20000, "random_histories": 3000, "idle_truth_checks": 250000,
                     "alternation_events": 50000, "acks_judged": 80000, "positive_acks": 40000, "negative_acks": 15000,
                     "rejected_subscriptions": 5000, "policy_changes": 3000, "same_iteration_placements": 20000, "deadline_before_placements": 4000,
-                    "deadline_after_placements": 4000, "reboot_with_subscribe_messages": 3000}}
+                    "deadline_after_placements": 4000, "reboot_with_subscribe_messages": 3000,
+                    "mesh_scenarios": 100, "mesh_final_checks_offerer": 150, "mesh_alternation_events": 1000}}
+# system-level shards: the mesh workload of pv/mesh.py under this property's boundary monitors (reports of other monitors are dropped)
+MESH = {"want": ("converge",), "claim": ("mesh:offerer-does-not-converge", "mesh:subscription-listener-history"),
+        "quick": (2, 60), "thorough": (16, 1500)}
 
 FOREVER = 0xFFFFFF
 SUBS = {"A": ("10.0.6.1", 30490), "B": ("10.0.6.1", 30491)}  # same host, other port
